@@ -23,6 +23,7 @@ CONSTANTS Kinds,            \* subset of {"rm", "rcm"}
                             \* FALSE: c is left alone (trace validation of this model against the code)
           Defect            \* "none" | "errsEarly" | "releaseLate" | "filterCtxErr" | "closersEarly" | "noWaitClose"
                             \* | "addNoOuterCheck" (RunnerCloserManager.Add without its own running check)
+                            \* | "skipIfCtxDone" (RunnerManager.Run returns nil at once when its context has already ended)
 
 VARIABLES kind, nr, nc, grace,                  \* configuration
           now,
@@ -87,6 +88,9 @@ StartRunners ==
   /\ mrunning' = TRUE
   /\ rpc' = [i \in DOMAIN rpc |-> IF \E x \in DOMAIN rl : rl[x] = i THEN "spawned" ELSE rpc[i]]
   /\ ctx' = pcan
+(* the context given to Run may have ended before Run is called (ParentCancel is possible in any state): the runners *)
+(* are started all the same.  Defect "skipIfCtxDone": the inner manager returns nil at once instead.                  *)
+SkipNow == Defect = "skipIfCtxDone" /\ pcan
 RunCall ==
   /\ nrun < 2
   /\ nrun' = nrun + 1
@@ -94,7 +98,8 @@ RunCall ==
        THEN /\ running' = TRUE /\ runid' = nrun + 1
             /\ nearly' = Len(regs) + GraceN
             /\ c' = Feed(c, <<E("runcall") @@ [id |-> nrun + 1], E("runstarted")>>)
-            /\ IF kind = "rm" THEN opc' = "inner" /\ StartRunners /\ hpc' = hpc
+            /\ IF kind = "rm" /\ SkipNow THEN opc' = "innerskip" /\ mrunning' = TRUE /\ UNCHANGED <<rpc, ctx, hpc>>
+               ELSE IF kind = "rm" THEN opc' = "inner" /\ StartRunners /\ hpc' = hpc
                               ELSE opc' = "spawn" /\ UNCHANGED <<mrunning, rpc, ctx, hpc>>
        ELSE /\ c' = Feed(c, <<E("runcall") @@ [id |-> nrun + 1],
                               E("runreturn") @@ [id |-> nrun + 1, rejected |-> TRUE, errs |-> <<>>]>>)
@@ -106,8 +111,9 @@ RunCall ==
 (* goroutine wins the inner manager's CAS (runner.go:59) and starts the runners that are in the slice now            *)
 InnerStart ==
   /\ kind = "rcm" /\ opc = "spawn"
-  /\ opc' = "inner" /\ StartRunners
-  /\ hpc' = IF Len(rl) > 0 THEN "run" ELSE "none"
+  /\ IF SkipNow THEN opc' = "innerskip" /\ mrunning' = TRUE /\ hpc' = "none" /\ UNCHANGED <<rpc, ctx>>
+     ELSE /\ opc' = "inner" /\ StartRunners
+          /\ hpc' = IF Len(rl) > 0 THEN "run" ELSE "none"
   /\ UNCHANGED <<kind, nr, nc, grace, rl, apr, now, running, closing, closeCh, stopped, closeFS, lockRun, pcan, icnt, ierrs,
                  runid, nearly, nloop, regs, cpc, cres, gpc, garm, ccnt, cerrs, retErr, apc, kpc, nrun, c>>
 
@@ -149,7 +155,7 @@ HiddenRet ==
 
 (* runner.go:96 returned; plain manager: that is Run's result *)
 InnerDoneRM ==
-  /\ kind = "rm" /\ opc = "inner" /\ icnt = NInner
+  /\ kind = "rm" /\ ((opc = "inner" /\ icnt = NInner) \/ opc = "innerskip")
   /\ opc' = "done"
   /\ c' = Feed(c, <<E("runreturn") @@ [id |-> runid, rejected |-> FALSE, errs |-> ierrs]>>)
   /\ UNCHANGED <<kind, nr, nc, grace, mrunning, rl, apr, now, running, closing, closeCh, stopped, closeFS, lockRun, pcan, ctx, rpc, hpc, icnt, ierrs,
@@ -159,7 +165,7 @@ InnerReady == IF Defect = "closersEarly" THEN icnt >= 1 \/ NInner = 0 ELSE icnt 
 
 (* closer.go:171-184: take the lock, set closing, start every closer *)
 StartClosing ==
-  /\ kind = "rcm" /\ opc = "inner" /\ InnerReady
+  /\ kind = "rcm" /\ ((opc = "inner" /\ InnerReady) \/ opc = "innerskip")
   /\ opc' = "collect" /\ lockRun' = TRUE /\ closing' = TRUE
   /\ nloop' = IF Defect = "errsEarly" THEN nearly ELSE Len(regs) + GraceN
   /\ cpc' = [j \in DOMAIN cpc |-> IF \E x \in DOMAIN regs : regs[x] = j THEN "spawned" ELSE cpc[j]]
